@@ -8,7 +8,7 @@
 (*   are TLA+ strings used as opaque atoms (never inspected); rendered text travels as Seq(Nat).           *)
 (*   The grammar is FROZEN to productions on which bundled 2.11.dev and stock 3.1.6 agree on the unchanged *)
 (*   tree; excluded (version skew, shown by an unpatched copy of the bundled engine to be independent of   *)
-(*   Nunavut's patch): exponent float literals `1e3`, `{%+`/`{#+` without lstrip_blocks, `+%}`, `{{+`,     *)
+(*   Nunavut's patch): exponent float literals `1e3`, `{%+`/`{#+` without lstrip_blocks, `+%}`, `{#+`,     *)
 (*   line boundaries other than LF/CR/CRLF in template SOURCE, filters/tests added after 2.11 (`items`,    *)
 (*   `is boolean/integer/float/true/false/filter/test`), see vf/props/c19.py SKEW for the recorded list.   *)
 (* Part 2 (MNext): marker templates  wrap( pre ws {{* e }} | {%* block %} post )  with their plain twin.   *)
@@ -293,7 +293,13 @@ SNext == FALSE /\ UNCHANGED vars
 
 (* ================================================ spec =============================================== *)
 Init == CASE Profile = "marker" -> MInit [] Profile = "assert" -> AInit [] Profile = "ifuses" -> UInit [] Profile = "sem" -> SInit [] OTHER -> GInit
-Next == CASE Profile = "marker" -> MNext [] Profile = "assert" -> ANext [] Profile = "ifuses" -> UNext [] Profile = "sem" -> SNext [] OTHER -> GNext
+(* One flat disjunction, so that TLC's -coverage reports every production separately.  The productions of a part are   *)
+(* only enabled in its own profiles: Kinds / Texts are empty elsewhere, and the phases in aux.ph are disjoint.           *)
+Next == \/ PText \/ PVar \/ PComment \/ PRaw \/ PSet \/ PInclude \/ PImport \/ PFrom \/ PExtends
+        \/ PIf \/ PFor \/ PSetBlock \/ PMacro \/ PCall \/ PFilter \/ PBlock \/ PElif \/ PElse \/ PEnd
+        \/ MWrap \/ MPre \/ MVar \/ MBlock \/ MPost
+        \/ APlace
+        \/ UClause \/ UElse \/ UEnd
 Spec == Init /\ [][Next]_vars
 
 (* sanity of the builder: the stack discipline (every end tag closes the innermost open block)             *)
